@@ -1,0 +1,49 @@
+// SPDX-FileCopyrightText: 2026 The Pion community <https://pion.ly>
+// SPDX-License-Identifier: MIT
+
+//go:build verif
+
+// Contracts (comment-only) for property C02: unauthenticated or mismatched STUN
+// never influences the agent. a.gUserOK / a.gIntegOK are ghost flags recording
+// the outcome of the USERNAME and MESSAGE-INTEGRITY checks of the request or
+// response being handled.
+
+package ice
+
+//@ ghost field ice.Agent.gUserOK bool
+//@ ghost field ice.Agent.gIntegOK bool
+
+//@ func canHandleInbound
+//@   props C02
+//@   requires msg != nil
+//@   pure
+//@   ensures binding-only: result == (msg.Type.Method == 1 && (msg.Type.Class == 0 || msg.Type.Class == 1 || msg.Type.Class == 2))
+
+//@ func (*Agent).handleInboundRequest
+//@   props C02
+//@   requires a != nil && msg != nil
+//@   site call AssertUsername#1 assert username-message: arg0 == msg
+//@   site call AssertUsername#1 assert username-is-local-colon-remote: arg1 == a.localUfrag + ":" + a.remoteUfrag
+//@   site call AssertUsername#1 ghost a.gUserOK := result == nil
+//@   site call Check#1 assert integrity-message: arg1 == msg
+//@   site call Check#1 assert integrity-key-is-local-pwd: elems(arg0) == strBytes(a.localPwd) && arg0.off == 0 && len(arg0) == len(a.localPwd)
+//@   site call Check#1 assert integrity-after-username: a.gUserOK
+//@   site call Check#1 ghost a.gIntegOK := result == nil
+//@   site call addRemoteCandidate#1 assert prflx-only-when-authenticated: a.gUserOK && a.gIntegOK
+//@   site call handleRoleConflict#1 assert conflict-only-when-authenticated: a.gUserOK && a.gIntegOK
+//@   site call HandleBindingRequest#1 assert selector-only-when-authenticated: a.gUserOK && a.gIntegOK
+//@   ensures reject-bad-username: !a.gUserOK ==> remoteCand == nil && !ok && unchangedExcept("H_ice.Agent.gUserOK", "H_ice.Agent.gIntegOK")
+//@   ensures reject-bad-integrity: a.gUserOK && !a.gIntegOK ==> remoteCand == nil && !ok && unchangedExcept("H_ice.Agent.gUserOK", "H_ice.Agent.gIntegOK")
+//@   ensures accept-needs-both: ok ==> a.gUserOK && a.gIntegOK
+//@   ensures accepted-has-candidate: ok ==> remoteCand != nil
+
+//@ func (*Agent).handleInboundResponse
+//@   props C02
+//@   requires a != nil && msg != nil
+//@   site call Check#1 assert integrity-message: arg1 == msg
+//@   site call Check#1 assert integrity-key-is-remote-pwd: elems(arg0) == strBytes(a.remotePwd) && arg0.off == 0 && len(arg0) == len(a.remotePwd)
+//@   site call Check#1 ghost a.gIntegOK := result == nil
+//@   site call HandleSuccessResponse#1 assert selector-only-when-authenticated: a.gIntegOK && remoteCandidate != nil
+//@   ensures reject-bad-integrity: !a.gIntegOK ==> !result && unchangedExcept("H_ice.Agent.gIntegOK")
+//@   ensures reject-unknown-remote: remoteCandidate == nil ==> !result && unchangedExcept("H_ice.Agent.gIntegOK")
+//@   ensures accept-needs-integrity: result ==> a.gIntegOK && remoteCandidate != nil
